@@ -612,7 +612,12 @@ func (i *uinteger) Validate(ctx ValidateCtx, path []string, s string) error {
 	var e error
 	// An integer is an optional sign followed by digits (RFC 6020 section
 	// 9.2.1), also for the unsigned types; ParseUint accepts no sign.
-	ui, e = strconv.ParseUint(strings.TrimPrefix(s, "+"), 10, int(i.t))
+	digits := strings.TrimPrefix(s, "+")
+	if len(s) > 1 && s[0] == '-' && strings.Trim(s[1:], "0") == "" {
+		// minus zero is zero
+		digits = s[1:]
+	}
+	ui, e = strconv.ParseUint(digits, 10, int(i.t))
 	if e != nil {
 		goto out
 	}
